@@ -199,6 +199,13 @@ class KwPack:
         self.known = dict(known or {})
 
 
+class StarPack:
+    """An opaque *args pack passed through unchanged (boxed as one value)."""
+
+    def __init__(self, val=None):
+        self.val = val if val is not None else fresh('argspack')
+
+
 class Module:
     def __init__(self, name):
         self.name = name
@@ -232,6 +239,10 @@ def box(ex, v):
             return V.strv(v)
         if s == SeqV:
             return V.lst(v)
+    if isinstance(v, StarPack):
+        return v.val
+    if isinstance(v, KwPack) and not v.known:
+        return v.val
     if isinstance(v, (Callable_, ExcClass, BoundMethod, Module, KwPack)):
         # python-level handle: give it an identity
         for k, o in ex.objs.items():
@@ -270,7 +281,10 @@ def as_num(ex, st, v):
     if is_z3(v) and v.sort() in (z3.IntSort(), z3.RealSort()):
         return v
     if is_z3(v) and v.sort() == Val:
-        raise Unsupported('numeric op on opaque value')
+        if not getattr(ex.unit, 'numeric_vals_are_ints', False):
+            raise Unsupported('numeric op on opaque value')
+        ex.oblige(st, 'numeric operand is an int', V.is_intv(v))
+        return V.ival(v)
     raise Unsupported(f'not a number: {v!r}')
 
 
@@ -363,7 +377,7 @@ class Exec:
     def raise_new(self, st, cls_name, label=None, args=None):
         st = st.fork()
         e = fresh('exc_' + cls_name.replace('.', '_'))
-        st.assume(V.ucls(e) == V.K[cls_name])
+        st.assume(V.ucls(e) == V.K[cls_name], *V.cls_facts(e))
         if args is not None:
             st.assume(eargs(e) == args)
         return ('raise', st, e)
@@ -828,6 +842,8 @@ class Exec:
                     def h(s2, v):
                         if isinstance(v, PyTuple):
                             return [('ok', s2, (ak[0] + list(v.items), ak[1]))]
+                        if isinstance(v, StarPack):
+                            return [('ok', s2, (ak[0] + [v], ak[1]))]
                         raise Unsupported('*args of unknown arity')
                     return self.bind(self.ev(a.value, s), h)
                 outs = self.bind(outs, g)
@@ -845,6 +861,8 @@ class Exec:
                         elif isinstance(v, KwPack):
                             d.update(v.known)
                             d['**'] = v
+                        elif isinstance(v, Obj) and hasattr(v, 'as_kwpack'):
+                            d['**'] = v.as_kwpack(self, s2)
                         else:
                             raise Unsupported('** of non-pack')
                     else:
@@ -875,7 +893,7 @@ class Exec:
     def new_exception(self, st, cls_name, args, kwargs, node):
         st = st.fork()
         e = fresh('exc_' + cls_name.replace('.', '_'))
-        st.assume(V.ucls(e) == V.K[cls_name])
+        st.assume(V.ucls(e) == V.K[cls_name], *V.cls_facts(e))
         st.assume(eargs(e) == V.tup(V.seq_of([box(self, a) for a in args])))
         if cls_name == 'SystemExit':
             st.assume(ecode(e) == (box(self, args[0]) if args else NONE))
@@ -1473,7 +1491,7 @@ class Exec:
             if self.unit.consumer_may_stop:
                 s2 = s.fork()
                 ge = fresh('genexit')
-                s2.assume(V.ucls(ge) == V.K['GeneratorExit'])
+                s2.assume(V.ucls(ge) == V.K['GeneratorExit'], *V.cls_facts(ge))
                 res.append(('raise', s2, ge))
             return res
         if e.value is None:
